@@ -838,7 +838,7 @@ std::fmt::Arguments::<'a>::new std::fmt::Arguments::<'a>::from_str core::fmt::rt
 core::fmt::rt::Argument::<'_>::from_usize core::fmt::rt::Argument::<'_>::new_binary core::fmt::rt::Argument::<'_>::new_octal
 core::str::<impl str>::chars core::str::<impl str>::bytes core::str::<impl str>::starts_with core::str::<impl str>::ends_with core::str::<impl str>::contains
 core::str::traits::<impl std::cmp::PartialEq for str>::eq core::slice::ascii::<impl [u8]>::eq_ignore_ascii_case core::slice::<impl [T]>::starts_with
-core::slice::<impl [T]>::iter core::slice::<impl [T]>::chunks_exact <std::str::Chars<'a> as std::iter::Iterator>::next
+core::slice::<impl [T]>::iter <std::str::Chars<'a> as std::iter::Iterator>::next
 <std::slice::Iter<'a, T> as std::iter::Iterator>::next <std::slice::ChunksExact<'a, T> as std::iter::Iterator>::next
 <std::iter::Enumerate<I> as std::iter::Iterator>::next <std::iter::Zip<A, B> as std::iter::Iterator>::next
 std::char::methods::<impl char>::is_ascii_digit std::char::methods::<impl char>::is_ascii_whitespace std::char::methods::<impl char>::is_whitespace
@@ -901,6 +901,13 @@ serde::de::impls::<impl serde::Deserialize<'de> for (T0, T1)>::deserialize serde
     E.quiet_patterns = [re.compile(p) for p in (r"^core::hash::impls::", r"^std::fmt::Formatter::<'a>::debug_", r"^std::vec::Vec::<T, A>::push$",
                                                 r"^std::iter::Iterator::(map|fold|any|collect|flat_map)$", r"^\?std::iter::Iterator::(map|fold)$",
                                                 r"^<std::iter::(Map|FlatMap)<.*> as std::iter::Iterator>::(fold|next)$")]
+
+    def chunks_exact(F, bi, st, t, args):
+        a = ival(F, st, args[1])
+        F.oblige(bi, "panic", "chunks_exact(%s,%s)" % (F.d_op(t["args"][0]), F.d_op(t["args"][1])), t["ln"], a is not None and a[1] >= 1,
+                 "chunk size must not be 0")
+        return None
+    M["core::slice::<impl [T]>::chunks_exact"] = chunks_exact
 
     def vec_with_capacity(F, bi, st, t, args):
         a = ival(F, st, args[0])
